@@ -55,7 +55,7 @@ func GenPressureScript(t *rapid.T, prop, profile string, o GenOpts) *Script {
 			}
 		}
 	}
-	s.World.PriorityClasses = []PriorityClassSpec{{"train", 50}, {"build", 100}, {"inference", 125}, {"low", 25}}
+	s.World.PriorityClasses = []PriorityClassSpec{{Name: "train", Value: 50}, {Name: "build", Value: 100}, {Name: "inference", Value: 125}, {Name: "low", Value: 25}}
 	place := func(p *PodSpec) bool {
 		start := rapid.IntRange(0, nn-1).Draw(t, "pstart")
 		for k := 0; k < nn; k++ {
@@ -199,7 +199,7 @@ func GenDepartmentReclaimScript(t *rapid.T, prop string, o GenOpts) *Script {
 		{Name: "dr", GPU: QRes{Quota: float64(own + rapid.IntRange(0, need+1).Draw(t, "drroom")), Limit: -1, Weight: pick(t, "drw", 0.0, 1.0)}, CPU: unl, Mem: unl},
 		{Name: "drq0", Parent: "dr", GPU: QRes{Quota: float64(rapid.IntRange(0, total).Draw(t, "drq0")), Limit: -1, Weight: 1}, CPU: unl, Mem: unl},
 	}
-	s.World.PriorityClasses = []PriorityClassSpec{{"train", 50}, {"build", 100}, {"inference", 125}, {"low", 25}}
+	s.World.PriorityClasses = []PriorityClassSpec{{Name: "train", Value: 50}, {Name: "build", Value: 100}, {Name: "inference", Value: 125}, {Name: "low", Value: 25}}
 	k := 0
 	slot := func() string { n := fmt.Sprintf("n%d", k/int(g)); k++; return n }
 	for i := 0; i < victims; i++ {
@@ -255,7 +255,7 @@ func GenSharedGPUScript(t *rapid.T, prop string, o GenOpts) *Script {
 		s.World.Queues = append(s.World.Queues, q)
 		leaves = append(leaves, q.Name)
 	}
-	s.World.PriorityClasses = []PriorityClassSpec{{"train", 50}, {"build", 100}, {"inference", 125}, {"low", 25}}
+	s.World.PriorityClasses = []PriorityClassSpec{{Name: "train", Value: 50}, {Name: "build", Value: 100}, {Name: "inference", Value: 125}, {Name: "low", Value: 25}}
 	units := []int{25, 30, 50, 50, 70} // hundredths of a device
 	shape := func(p *PodSpec, u int) {
 		if byMem {
@@ -345,7 +345,7 @@ func GenProtectedElasticScript(t *rapid.T, prop string, o GenOpts) *Script {
 	qb := QueueSpec{Name: "qb", GPU: QRes{Quota: float64(nn) * float64(g), Limit: -1, Weight: 1},
 		CPU: QRes{Quota: -1, Limit: -1, Weight: 1}, Mem: QRes{Quota: -1, Limit: -1, Weight: 1}}
 	s.World.Queues = []QueueSpec{qa, qb}
-	s.World.PriorityClasses = []PriorityClassSpec{{"train", 50}, {"build", 100}, {"inference", 125}, {"low", 25}}
+	s.World.PriorityClasses = []PriorityClassSpec{{Name: "train", Value: 50}, {Name: "build", Value: 100}, {Name: "inference", Value: 125}, {Name: "low", Value: 25}}
 	// the protected elastic workload
 	e := WorkloadSpec{Name: "e0", Queue: "qa", MinMember: min, AgeSec: 9000, PriorityClass: pick(t, "pepc", "train", "low")}
 	ago := int64(pick(t, "pestart", 60, 60, 20, 3600, 100000))
@@ -439,7 +439,7 @@ func GenDeepTreeReclaimScript(t *rapid.T, prop string, o GenOpts) *Script {
 		s.World.Queues = append(s.World.Queues, QueueSpec{Name: "tz", Parent: "t", CPU: unl, Mem: unl, GPU: QRes{Quota: 1, Limit: -1, Weight: 1}})
 		leaves = append(leaves, "tz")
 	}
-	s.World.PriorityClasses = []PriorityClassSpec{{"train", 50}, {"build", 100}, {"inference", 125}, {"low", 25}}
+	s.World.PriorityClasses = []PriorityClassSpec{{Name: "train", Value: 50}, {Name: "build", Value: 100}, {Name: "inference", Value: 125}, {Name: "low", Value: 25}}
 	for i := 0; i < int(g); i++ {
 		w := WorkloadSpec{Name: fmt.Sprintf("r%d", i), Queue: pick(t, "dtrq", leaves...), MinMember: 1, PriorityClass: pick(t, "dtrpc", "train", "train", "low"), AgeSec: int64(rapid.IntRange(1, 5000).Draw(t, "dtrage"))}
 		ago := int64(pick(t, "dtstart", 5, 20, 45, 300, 900, 5000, 10000))
